@@ -4,6 +4,8 @@ import (
 	"go/token"
 	"go/types"
 
+	"github.com/awslabs/ar-go-tools/analysis/config"
+	"github.com/awslabs/ar-go-tools/internal/pointer"
 	"golang.org/x/tools/go/ssa"
 )
 
@@ -127,5 +129,106 @@ func Harness_C08_loop() {
 	for pi := 0; pi < 2; pi++ {
 		f.expectEdge(sm, ret, 0, pi, k0 == pi || ky == pi)
 		f.expectEdge(sm, ret, 1, pi, ky == pi)
+	}
+}
+
+// Harness_C08_call: a function that passes (values derived from) its parameters to a static call and returns
+// (components of) the call's result: parameter -> call-argument edges, call -> return edges with the tuple index,
+// and parameter -> return edges for the values that bypass the call.
+func Harness_C08_call() {
+	nCalleeRes := verifPick("callee-results", 1, 2)
+	nRes := 2
+	f := c08NewFn(nRes)
+	// optional value computed before the call
+	pre, _ := c08MakeInstr(verifPick("pre-kind", 0, 3), f.params[verifPick("pre-operand", 0, 1)], f.params[0])
+	f.typed(pre)
+	preFrom := -1
+	for pi, p := range f.params {
+		var ops []*ssa.Value
+		for _, o := range pre.Operands(ops) {
+			if *o == ssa.Value(p) {
+				preFrom = pi
+			}
+		}
+	}
+	callee, _, _ := hFunc("callee", 2, nCalleeRes, 1)
+	call := &ssa.Call{}
+	call.Call.Value = callee
+	vals := []ssa.Value{f.params[0], f.params[1], pre.(ssa.Value)}
+	from := []int{0, 1, preFrom}
+	argIdx := []int{verifPick("arg0", 0, 2), verifPick("arg1", 0, 2)}
+	call.Call.Args = []ssa.Value{vals[argIdx[0]], vals[argIdx[1]]}
+	instrs := []ssa.Instruction{pre, call}
+	var callVals []ssa.Value // values carrying (a component of) the call result, with their tuple index
+	var callIdx []int
+	if nCalleeRes == 1 {
+		f.typed(call)
+		callVals, callIdx = []ssa.Value{call}, []int{0}
+	} else {
+		verifSetUnexported(call, "typ", types.Type(types.NewTuple(types.NewVar(token.NoPos, nil, "", f.intT), types.NewVar(token.NoPos, nil, "", f.intT))))
+		for t := 0; t < 2; t++ {
+			e := &ssa.Extract{Tuple: call, Index: t}
+			f.typed(e)
+			instrs = append(instrs, e)
+			callVals = append(callVals, e)
+			callIdx = append(callIdx, t)
+		}
+	}
+	// returned values: a parameter, the pre-value, or a component of the call result
+	retChoices := append(append([]ssa.Value{}, vals...), callVals...)
+	ret := &ssa.Return{}
+	var retPick []int
+	for k := 0; k < nRes; k++ {
+		r := verifPick("ret", 0, len(retChoices)-1)
+		retPick = append(retPick, r)
+		ret.Results = append(ret.Results, retChoices[r])
+	}
+	instrs = append(instrs, ret)
+	b0 := f.block(0, instrs)
+	f.fn.Blocks = []*ssa.BasicBlock{b0}
+
+	cfg := &config.Config{}
+	a := &AnalyzerState{
+		Config:          cfg,
+		Logger:          &config.LogGroup{},
+		PointerAnalysis: &pointer.Result{Queries: map[ssa.Value]pointer.Pointer{}, IndirectQueries: map[ssa.Value]pointer.Pointer{}},
+		Globals:         map[*ssa.Global]*GlobalNode{},
+		FlowGraph:       &InterProceduralFlowGraph{Summaries: map[*ssa.Function]*SummaryGraph{}},
+	}
+	sm := NewSummaryGraph(a, f.fn, 1, func(*AnalyzerState, ssa.Node) bool { return false }, nil)
+	verifTerminatesWithin("intra-procedural-terminates", 4000000)
+	_, err := RunIntraProcedural(a, sm)
+	verifTerminated()
+	verifReach("call-summarised")
+	verifAssert("no-analysis-error", err == nil)
+	cn := sm.Callees[call][callee]
+	verifAssert("call-node-created", cn != nil)
+	if cn == nil {
+		return
+	}
+	// parameter -> call argument
+	for j := 0; j < 2; j++ {
+		src := from[argIdx[j]]
+		if src >= 0 {
+			pn := sm.Params[f.params[src]]
+			argNode := cn.FindArg(call.Call.Args[j])
+			verifAssert("def-use-chain-param-to-call-argument-has-edge", len(pn.Out()[argNode]) > 0)
+			verifAssert("call-argument-edge-mirrored", hHasInEdge(pn, argNode))
+		}
+	}
+	// returned values
+	for k := 0; k < nRes; k++ {
+		rn := sm.Returns[ret][k]
+		r := retPick[k]
+		if r < len(vals) {
+			if from[r] >= 0 {
+				pn := sm.Params[f.params[from[r]]]
+				verifAssert("def-use-chain-param-to-result-has-edge", len(pn.Out()[rn]) > 0)
+			}
+		} else {
+			t := callIdx[r-len(vals)]
+			verifAssert("call-result-to-return-has-edge-with-its-tuple-index", hHasOutEdge(cn, rn, t))
+			verifAssert("call-result-edge-mirrored", hHasInEdge(cn, rn))
+		}
 	}
 }
